@@ -383,6 +383,7 @@ def trimLimit : Nat := 432000
 structure Trimmer where
   t0 : Nat                 -- `now` read at the start of `Trim`
   pending : Option Name    -- the file it has decided (after `os.Stat`) to remove next
+  deriving DecidableEq
 
 structure TSys where
   sys : Sys
